@@ -38,7 +38,7 @@ theorem decodeBox_fuel_sufficient (g : Nat) (bs : Bytes) (pos : Nat) (r : Node Ã
   Walk.decodeBox_fuel_sufficient g bs pos r h
 
 /-- **every modelled leaf-box decoder returns at most |payload| + 40 values**, whatever count fields and lengths
-    the payload announces (42 box types of `Boxes.specs`; every field inside a repeated group consumes at least one
+    the payload announces (64 box types of `Boxes.specs`; every field inside a repeated group consumes at least one
     byte, so an inflated count cannot inflate the result): allocation linear in the input -/
 theorem modelled_decoders_linear (ty : String) (sp : Boxes.Spec) (hsp : (ty, sp) âˆˆ Boxes.specs) (f : Nat)
     (payload : Bytes) (tr : Layout.Trace) (rest : Bytes)
